@@ -11,7 +11,11 @@ nodes:   ["T", s] str | ["X", s] jsx(s) given as a child | ["N", "int"|"float", 
        | ["M", id]  metadata node (id % 3: dependency with script / bare dependency / MetadataNode subclass;
                     one object per id per tree, so a repeated id is an aliased object)
        | ["G", name, [[key, ["S"|"H", value]]...], [kid...]]              HTML Tag (attrs stored as is)
-       | ["C", name, allowed|None, [[rawname, value]...], [kid...], how]  JSXTag; how = the way children are added
+       | ["C", name, allowed|None, [[rawname, value]...], [kid...], how]  JSXTag; how = the way children are added:
+                    constructor args / nested lists with None / TagList / append(*rest) / extend(list) / children.insert
+                    / extend(tuple) / extend(generator) / extend(iter) / extend(map) / extend(reversed) / append one by one
+       | ["B", s, exp, n]  tagifiable whose tagify() raises the first n times (fault stream only)
+       values also: ["badstr", s, n]  object whose str() raises the first n times (fault stream only)
        | ["F", s, exp, held(, key)]  object with tagify() (str(x) == s) returning exp: a node, or ["L", [n...]] (a TagList);
                               held true: the SAME str / metadata object is returned by every call; held "tag": exp is a
                               Tag / JSXTag the object KEEPS and returns every time (possibly containing further
@@ -54,6 +58,12 @@ def safe(f):
         return ["err", 4]
     except ValueError:
         return ["err", 5]
+    except Exception as e:  # noqa: BLE001 - any other exception is a value too, never a harness crash
+        return ["exc", type(e).__name__]
+
+
+class Boom(Exception):
+    """raised by the harness's faulty objects"""
 
 
 # ---------------------------------------------------------------------------------------------
@@ -90,6 +100,34 @@ class Tfy:
         if self.held is not None:
             return self.held
         return build_node(self.exp, {})
+
+
+class FlakyTfy(Tfy):
+    """tagify() raises the first n times, then behaves as a fresh-building tagifiable"""
+
+    def __init__(self, so: str, exp, n: int):
+        super().__init__(so, exp, None)
+        self.n = n
+
+    def tagify(self):
+        if self.n > 0:
+            self.n -= 1
+            raise Boom("tagify() not ready")
+        return build_node(self.exp, {})
+
+
+class FlakyStr(Other):
+    """str(x) raises the first n times"""
+
+    def __init__(self, s: str, n: int):
+        super().__init__(s)
+        self.n = [n]            # a cell shared with the copies the conversion makes of this object
+
+    def __str__(self) -> str:
+        if self.n[0] > 0:
+            self.n[0] -= 1
+            raise Boom("str() not ready")
+        return self.s
 
 
 def make_meta(mid: int):
@@ -138,6 +176,8 @@ def build_val(v, reg):
         return build_node(v[1], reg)
     if k == "other":
         return Other(v[1])
+    if k == "badstr":
+        return FlakyStr(v[1], v[2])
     if k == "html":
         return HTML(v[1])
     raise ValueError(v)
@@ -165,6 +205,8 @@ def build_node(n, reg):
         for key, (m, val) in attrs:
             dict.__setitem__(t.attrs, key, HTML(val) if m == "H" else val)
         return t
+    if k == "B":
+        return FlakyTfy(n[1], n[2], n[3])
     if k == "F":
         so, exp, held = n[1], n[2], n[3]
         key = ("F", n[4]) if len(n) > 4 and n[4] is not None else None
@@ -202,6 +244,19 @@ def build_node(n, reg):
         if how == 5 and objs:
             x = mk(*objs[1:])
             x.children.insert(0, objs[0])
+            return x
+        if how in (6, 7, 8, 9, 10):
+            # JSXTag.extend with every kind of iterable, one-shot ones included
+            h = len(objs) // 2 if how in (6, 8) else 0
+            x = mk(*objs[:h])
+            rest = objs[h:]
+            x.extend(tuple(rest) if how == 6 else (o for o in rest) if how == 7 else iter(rest) if how == 8
+                     else map(lambda o: o, rest) if how == 9 else reversed(rest[::-1]))
+            return x
+        if how == 11:
+            x = mk()
+            for o in objs:
+                x.append(o)
             return x
         return mk(*objs)
     raise ValueError(n)
@@ -301,16 +356,36 @@ def canon_script(t):
             [ident(c) for c in t.children[1:]]]
 
 
-def observe(case):
-    try:
-        x = build_node(case, {})
-    except NotImplementedError:
-        return ["notimpl"], None
-    keys = list(x.attrs.keys())
+def observe_obj(x):
+    keys = safe(lambda: list(x.attrs.keys()))
     tg = safe(lambda: x.tagify())
-    tobs = ["ok", canon_script(tg[1])] if tg[0] == "ok" else tg
+    tobs = safe(lambda: canon_script(tg[1])) if tg[0] == "ok" else tg
     st = safe(lambda: str(x))
-    return ["ok", keys, tobs, st], (tg[1] if tg[0] == "ok" else None)
+    return ["ok", keys[1] if keys[0] == "ok" else keys, tobs, st], (tg[1] if tg[0] == "ok" and tobs[0] == "ok" else None)
+
+
+def observe(case):
+    b = safe(lambda: build_node(case, {}))
+    if b == ["err", NOTIMPL]:
+        return ["notimpl"], None
+    if b[0] != "ok":
+        return ["construction raised", b], None
+    return observe_obj(b[1])
+
+
+def unexpected_exceptions(obs) -> list:
+    """exceptions the statement has no place for: anything but NotImplementedError at construction and
+    TypeError / ValueError from a conversion (a tree without JavaScript reading)"""
+    out = []
+    if obs[0] == "construction raised":
+        out.append(obs[1])
+    elif obs[0] == "ok":
+        for part in (obs[1], obs[2], obs[3]):
+            if isinstance(part, list) and part and part[0] == "exc":
+                out.append(part)
+            elif isinstance(part, list) and len(part) == 2 and part[0] == "err" and part[1] not in (3, 5):
+                out.append(part)
+    return out
 
 
 # ---------------------------------------------------------------------------------------------
@@ -721,6 +796,7 @@ def probe_deviations(ctx: Ctx) -> None:
 # ---------------------------------------------------------------------------------------------
 # generators
 # ---------------------------------------------------------------------------------------------
+N_HOW = 12      # ways of adding children: see build_node
 OK_NAMES = ["Foo", "Bar", "a.b.Foo", "ui.Card", "X", "Foo.Bar", "$x.Y"]
 BAD_NAMES = ["foo", "a.foo", "Foo.bar", "x", "ui.card"]
 EDGE_NAMES = ["", "a.", "1x", "_x", "..", "A-b", "Foo Bar", "F\"q"]
@@ -843,7 +919,7 @@ def gen_comp(rng, depth, clean, fail, P):
             kids.append(["G", "section", [], [["T", "again"], kids[i]]])
         elif allowed is None:
             kwargs.append(["again", ["node", kids[i]]])
-    return ["C", name, allowed, kwargs, kids, rng.randrange(0, 6)]
+    return ["C", name, allowed, kwargs, kids, rng.randrange(0, N_HOW)]
 
 
 def gen_tag(rng, depth, clean, fail, P):
@@ -922,7 +998,7 @@ def enum_small():
             for k1 in [None] + leaves:
                 for k2 in [None] + leaves[:4]:
                     kids = [k for k in (k1, k2) if k is not None]
-                    yield {"clean": True, "tree": ["C", "Foo", None, kw, kids, (len(kids) + len(kw)) % 6]}
+                    yield {"clean": True, "tree": ["C", "Foo", None, kw, kids, (3 * len(kids) + 5 * len(kw) + len(json.dumps([k1, k2, v1]))) % N_HOW]}
 
 
 # ---------------------------------------------------------------------------------------------
@@ -934,6 +1010,10 @@ W_SHAPE = "JSXTag.tagify() is not a script tag with type/data-needs-render, one 
 W_META = "metadata nodes carried by the script differ from the pre-order list over children, nested tags/components, node-valued props and expansions"
 W_FILES = "react / react-dom script file missing from the package"
 W_MIRROR = "the generated React.createElement expression does not mirror the component"
+W_EXC = ("an exception the statement has no place for (not NotImplementedError at construction, not TypeError / "
+         "ValueError for a tree without JavaScript reading) was raised on a valid component tree")
+W_FAULT = ("after a conversion that raised, converting the same or another component differs from a freshly built "
+           "identical component that never saw a fault")
 W_ALLOW = "allowedProps: construction outcome differs from raw-name membership in a non-empty allow-list"
 
 STATS: dict = {}
@@ -966,10 +1046,10 @@ def convert(op, x):
 
 def check_purity(ctx, case, rng):
     tree = case["tree"]
-    try:
-        x = build_node(tree, {})
-    except NotImplementedError:
+    b = safe(lambda: build_node(tree, {}))
+    if b[0] != "ok":
         return
+    x = b[1]
     ops = [rng.choice(CONVERSIONS) for _ in range(rng.choice([1, 2, 3]))]
     before = snapshot([x])
     seen: dict = {}
@@ -1073,9 +1153,15 @@ def run_batch(ctx: Ctx, cases: list, label: str, rng) -> None:
             disagreements.append({"case": case, "impl_output": obs,
                                   "model_output": mv["obs"] if isinstance(mv, dict) else mv})
         # ---- C: oracles ----------------------------------------------------------------------
-        stat("outcome: " + ("NotImplementedError at construction" if obs[0] != "ok" else
-                            "converted" if obs[2][0] == "ok" else f"conversion raised (code {obs[2][1]})"))
+        stat("outcome: " + ("NotImplementedError at construction" if obs[0] == "notimpl" else
+                            "construction raised something else" if obs[0] != "ok" else
+                            "converted" if obs[2][0] == "ok" else f"conversion raised ({obs[2][1]})"))
+        unexp = unexpected_exceptions(obs)
+        if unexp:
+            ctx.violation(W_EXC, case, {"impl_output": unexp})
         ok_expected = expected_allow(tree)
+        if obs[0] == "construction raised":
+            continue
         if ok_expected != (obs[0] == "ok"):
             ctx.violation(W_ALLOW, case, {"impl_output": obs[0], "expected": "ok" if ok_expected else "NotImplementedError"})
         check_purity(ctx, case, rng)
@@ -1113,14 +1199,15 @@ def run_batch(ctx: Ctx, cases: list, label: str, rng) -> None:
             got = [r[1] for r in rest[2:]]
             if got != metas:
                 ctx.violation(W_META, case, {"impl_output": got, "expected": metas})
-            deps = [d.name for d in tag.get_dependencies(dedup=False)]
-            exp_deps = ["react", "react-dom"] + [f"m{i}" for i in metas if i % 3 != 2]
+            deps = safe(lambda: [d.name for d in tag.get_dependencies(dedup=False)])
+            exp_deps = ["ok", ["react", "react-dom"] + [f"m{i}" for i in metas if i % 3 != 2]]
             if deps != exp_deps:
                 ctx.violation(W_META, case, {"impl_output": deps, "expected": exp_deps})
         for d in tag.children[1:3]:
-            src = d.source_path_map()["source"]
-            if not all(os.path.isfile(os.path.join(src, sc["src"])) for sc in d.script) or not d.script:
-                ctx.violation(W_FILES, case, {"impl_output": [d.name, src, d.script]})
+            fl = safe(lambda: bool(d.script) and all(
+                os.path.isfile(os.path.join(d.source_path_map()["source"], sc["src"])) for sc in d.script))
+            if fl != ["ok", True]:
+                ctx.violation(W_FILES, case, {"impl_output": [d.name, fl]})
         # wrapper and expression
         pre, post = wrapper_parts(tree[1])
         html = child0[1]
@@ -1171,6 +1258,150 @@ def run_batch(ctx: Ctx, cases: list, label: str, rng) -> None:
 
 
 # ---- small function-level correspondences ----------------------------------------------------
+# ---- fault stream: a conversion raises midway, then the same and other components are converted ------------
+def _map_tree(n, f_node, f_val):
+    """rebuild a description, applying f_node / f_val bottom-up"""
+    def val(v):
+        k = v[0]
+        if k == "list":
+            v = [k, v[1], [val(x) for x in v[2]]]
+        elif k == "dict":
+            v = [k, [[kk, val(x)] for kk, x in v[1]]]
+        elif k == "node":
+            v = [k, node(v[1])]
+        return f_val(v)
+
+    def node(m):
+        k = m[0]
+        if k == "G":
+            m = [k, m[1], m[2], [node(x) for x in m[3]]]
+        elif k == "C":
+            m = [k, m[1], m[2], [[kk, val(x)] for kk, x in m[3]], [node(x) for x in m[4]], m[5]]
+        elif k in "FB":
+            m = [k, m[1], node(m[2]) if m[2][0] != "L" else m[2]] + list(m[3:])
+        return f_node(m)
+    return node(n)
+
+
+def without_faults(tree, zero_only=False):
+    """zero_only: the same faulty objects with their counters at 0; else ordinary objects in their place"""
+    def fn(m):
+        if m[0] == "B":
+            return ["B", m[1], m[2], 0] if zero_only else ["F", m[1], m[2], False]
+        return m
+
+    def fv(v):
+        if v[0] == "badstr":
+            return ["badstr", v[1], 0] if zero_only else ["other", v[1]]
+        return v
+    return _map_tree(tree, fn, fv)
+
+
+def inject_fault(tree, rng, clean):
+    """the tree with ONE faulty object added at a position the conversion reaches: a tagifiable child or prop value
+    whose tagify() raises the first n times (then expands to a tag with a dependency / a dependency / a str), or a
+    prop value whose str() raises the first n times"""
+    spots = []      # (path of indices into kids / props, kind)
+
+    def walk(m, path):
+        if m[0] == "G":
+            spots.append((path, "kid"))
+            for i, k in enumerate(m[3]):
+                walk(k, path + [("k", i)])
+        elif m[0] == "C":
+            spots.append((path, "kid"))
+            if m[2] is None:
+                spots.append((path, "prop"))
+                spots.append((path, "str"))
+            for i, (kk, v) in enumerate(m[3]):
+                if v[0] == "node":
+                    walk(v[1], path + [("p", i)])
+            for i, k in enumerate(m[4]):
+                walk(k, path + [("k", i)])
+    walk(tree, [])
+    path, kind = rng.choice(spots)
+    n = rng.choice([1, 1, 2])
+    exp = rng.choice([["M", rng.randrange(0, 9)], ["T", "late"],
+                      ["G", "span", [], [["M", rng.randrange(0, 9)], ["T", "x"]]],
+                      ["C", "Late", None, [["d", ["node", ["M", rng.randrange(0, 9)]]]], [["M", rng.randrange(0, 9)]], 0]])
+    faulty = ["B", "flaky", exp, n]
+    out = json.loads(json.dumps(tree))
+    m = out
+    for t, i in path:
+        m = m[3][i] if (t == "k" and m[0] == "G") else m[4][i] if t == "k" else m[3][i][1][1]
+    if kind == "kid":
+        kids = m[3] if m[0] == "G" else m[4]
+        kids.insert(rng.randrange(0, len(kids) + 1), faulty)
+    elif kind == "prop":
+        m[3].insert(rng.randrange(0, len(m[3]) + 1), ["flakyProp", ["node", faulty]])
+    else:
+        m[3].insert(rng.randrange(0, len(m[3]) + 1), ["flakyStr", ["badstr", "late" if clean else 'l"\\', n]])
+    return out, n
+
+
+def run_faults(ctx: Ctx, rng) -> None:
+    rounds = ctx.budget(300, 4000)
+    done = 0
+    attempts = 0
+    while done < rounds and attempts < rounds * 4:
+        attempts += 1
+        c1, c2 = gen_case(rng), gen_case(rng)
+        if not (expected_allow(c1["tree"]) and expected_allow(c2["tree"])):
+            continue
+        tree, n = inject_fault(c1["tree"], rng, c1["clean"])
+        case = {"clean": c1["clean"], "tree": tree, "other": c2["tree"], "order": done % 2}
+        by = safe(lambda: build_node(c2["tree"], {}))
+        bx = safe(lambda: build_node(tree, {}))
+        if by[0] != "ok" or bx[0] != "ok":
+            continue
+        y, x = by[1], bx[1]
+        y_before = observe_obj(y)[0]
+        first = [safe(lambda: x.tagify()) if i % 2 == 0 else safe(lambda: str(x)) for i in range(n)]
+        if any(f != ["exc", "Boom"] for f in first):
+            stat("faults: the fault was not reached (an earlier error, or a position that is not converted)")
+            continue
+        done += 1
+        ctx.count(["fault", case], True, "fault, then conversions of the same and another component")
+        stat("faults: conversions that raised midway")
+        # nothing reachable changed, apart from the fault counters
+        zb = safe(lambda: build_node(without_faults(tree, zero_only=True), {}))
+        if zb[0] == "ok" and snapshot([x]) != snapshot([zb[1]]):
+            ctx.violation(W_PURE, case, {"after": "a conversion that raised midway",
+                                         "first_difference": _first_diff(snapshot([zb[1]]), snapshot([x]))})
+        fb = safe(lambda: build_node(without_faults(tree), {}))
+        if fb[0] != "ok":
+            continue
+        # the NEXT conversion in the process is alternately that of the same component and of the other one
+        if case["order"] == 0:
+            obs_x, obs_y = observe_obj(x)[0], observe_obj(y)[0]
+        else:
+            obs_y, obs_x = observe_obj(y)[0], observe_obj(x)[0]
+        obs_f = observe_obj(fb[1])[0]
+        if obs_x != obs_f:
+            ctx.violation(W_FAULT, case, {"which": "the same component, converted again", "impl_output": obs_x, "expected": obs_f})
+        if obs_y != y_before:
+            ctx.violation(W_FAULT, case, {"which": "another component, built before the fault", "impl_output": obs_y,
+                                          "expected": y_before})
+        fy = safe(lambda: build_node(c2["tree"], {}))
+        if fy[0] == "ok" and observe_obj(fy[1])[0] != y_before:
+            ctx.violation(W_FAULT, case, {"which": "another component, built after the fault"})
+    ctx.obligation(f"fault stream reached its faults ({done} of {rounds} rounds)", done >= rounds // 2)
+
+
+def stage(ctx: Ctx, name: str, f) -> None:
+    """a stage of the check never ends in a harness crash: what the implementation raises where the harness does
+    not expect anything is reported with the stage that met it"""
+    try:
+        f()
+    except common.BuildError:
+        raise
+    except Exception as e:  # noqa: BLE001
+        import traceback
+        ctx.violation(f"{W_EXC} (met outside the guarded calls, in stage {name})", ["stage", name],
+                      {"impl_output": type(e).__name__, "traceback": traceback.format_exc()[-1500:]})
+        ctx.obligation(f"stage {name} completed", False)
+
+
 # ---- histories of jsx_tag_create ---------------------------------------------------------------
 W_HIST = ("jsx_tag_create(name, allowedProps): a construction was not decided by the allow-list declared in that very "
           "call (rejected iff the list is non-empty and some raw keyword is outside it), or rendered differently from "
@@ -1206,7 +1437,11 @@ def run_histories(ctx: Ctx, rng, extra=()) -> None:
     for hi, h in enumerate(hists):
         ctx.count(["history", h], len({st[0] for st in h}) < len(h), "jsx_tag_create history")
         for si, (name, allowed, cons) in enumerate(h):
-            ctor = jsx_tag_create(name, allowed)
+            c0 = safe(lambda: jsx_tag_create(name, allowed))
+            if c0[0] != "ok":
+                ctx.violation(W_EXC, {"history": h, "step": si}, {"impl_output": c0})
+                continue
+            ctor = c0[1]
             for ci, kwargs in enumerate(cons):
                 stat("histories: constructions")
                 kw = {k: build_val(v, {}) for k, v in kwargs}
@@ -1219,8 +1454,9 @@ def run_histories(ctx: Ctx, rng, extra=()) -> None:
                     exp = ["notimpl"]
                     stat("histories: constructions that must be rejected")
                 else:
-                    d = JSXTag(name, allowedProps=allowed, **kw)
-                    exp = ["ok", list(d.attrs.keys()), str(d)]
+                    d = safe(lambda: JSXTag(name, allowedProps=allowed, **kw))
+                    exp = safe(lambda: ["ok", list(d[1].attrs.keys()), str(d[1])])
+                    exp = exp[1] if exp[0] == "ok" else ["direct construction failed", d, exp]
                 if got != exp:
                     ctx.violation(W_HIST, {"history": h, "step": si, "construction": ci},
                                   {"impl_output": got, "expected": exp})
@@ -1272,8 +1508,13 @@ def run_strings(ctx: Ctx, rng) -> None:
     for s, m in zip(strs, out):
         clean = not any(c in s for c in "\\\r\n")
         ctx.count(["quote", s], '"' in s or not clean, "string literal")
-        impl = _jsx._serialize_attr(s)
-        child = _jsx._render_react_js(s, 0, "\n")
+        impl = safe(lambda: _jsx._serialize_attr(s))
+        child = safe(lambda: _jsx._render_react_js(s, 0, "\n"))
+        if impl[0] != "ok" or child[0] != "ok":
+            ctx.violation(W_EXC, ["str", s], {"impl_output": [impl, child]})
+            bad.append({"case": s, "impl_output": [impl, child]})
+            continue
+        impl, child = impl[1], child[1]
         pyq, jsq, back = _s(m[0]), _s(m[1]), (_s(m[2][0]) if m[2] else None)
         if not (impl == pyq == jsq == child):
             bad.append({"case": s, "impl_output": [impl, child], "model_output": [pyq, jsq]})
@@ -1361,7 +1602,12 @@ def check_tables(ctx: Ctx) -> None:
     pkg = os.path.dirname(htmltools.__file__)
     tv = _table("lib_versions")
     td = _table("jsx_lib_deps")
-    live = [d for d in JSXTag("Foo").tagify().children[1:3]]
+    lv = safe(lambda: [d for d in JSXTag("Foo").tagify().children[1:3]])
+    if lv[0] != "ok":
+        ctx.violation(W_EXC, ["JSXTag('Foo').tagify()"], {"impl_output": lv})
+        ctx.obligation("translator tables lib_versions / jsx_lib_deps agree with the live package", False)
+        return
+    live = lv[1]
     ok = (tv == [[k, v] for k, v in versions.items()]
           and td == [[d.name, d.script[0]["src"],
                       os.path.isfile(os.path.join(pkg, "lib", d.name, d.script[0]["src"]))] for d in live])
@@ -1420,22 +1666,24 @@ def run(ctx: Ctx) -> None:
     ]
     ctx.proof()
     probe_deviations(ctx)
-    check_tables(ctx)
+    stage(ctx, "tables", lambda: check_tables(ctx))
     corpus = load_corpus()
     if corpus:
-        run_batch(ctx, corpus, "corpus", rng)
+        stage(ctx, "corpus", lambda: run_batch(ctx, corpus, "corpus", rng))
+    stage(ctx, "faults", lambda: run_faults(ctx, rng))       # early: what a fault leaves behind shows up below too
     n = ctx.budget(2500, 40000)
     step = 2500
     for k in range(0, n, step):
-        run_batch(ctx, [gen_case(rng) for _ in range(min(step, n - k))], "random trees", rng)
+        stage(ctx, "random trees",
+              lambda: run_batch(ctx, [gen_case(rng) for _ in range(min(step, n - k))], "random trees", rng))
     small = list(enum_small())
     if ctx.quick:
         small = rng.sample(small, 600)
-    run_batch(ctx, small, "small scope", rng)
-    run_strings(ctx, rng)
-    run_css(ctx, rng)
-    run_render(ctx, rng)
-    run_histories(ctx, rng, extra=[h for h in CORPUS_HISTORIES])
+    stage(ctx, "small scope", lambda: run_batch(ctx, small, "small scope", rng))
+    stage(ctx, "strings", lambda: run_strings(ctx, rng))
+    stage(ctx, "css", lambda: run_css(ctx, rng))
+    stage(ctx, "render", lambda: run_render(ctx, rng))
+    stage(ctx, "histories", lambda: run_histories(ctx, rng, extra=[h for h in CORPUS_HISTORIES]))
     ctx.extra["oracle_counts"] = dict(sorted(STATS.items()))
 
 
@@ -1447,7 +1695,9 @@ def replay(ctx: Ctx, path: str) -> None:
     ctx.proof()
     case = r.get("case")
     if isinstance(case, dict) and "tree" in case:
-        run_batch(ctx, [case], "replay", ctx.rng)
+        run_batch(ctx, [{"clean": case.get("clean"), "tree": without_faults(case["tree"])}], "replay", ctx.rng)
+        if "other" in case:
+            run_faults(ctx, ctx.rng)
     elif isinstance(case, dict) and "history" in case:
         ctx.budget = lambda q, t: 0          # only the recorded history
         run_histories(ctx, ctx.rng, extra=[case["history"]])
